@@ -321,6 +321,36 @@ fn graph_family(c: &mut Cat, _rng: &mut Rng) {
         c.measure("graph.nested_graph_node_with_wired_inputs_again", Z, || { for _ in 0..reps.min(300) { po.process(&mut outer, sink); } });
         bb(outer[sink].buffers[0][0]);
     }
+    // a call that unwinds — a user node panics, or the documented panic for a missing node index — and
+    // is caught by the host, which keeps using the same processor: "allocates nothing once a processor
+    // has processed a graph of that size once", and the processor had (the failing call itself is not measured)
+    {
+        use std::sync::atomic::{AtomicBool, Ordering};
+        static FAIL: AtomicBool = AtomicBool::new(false);
+        fn flaky(_i: &[Input], out: &mut [Buffer]) {
+            if FAIL.load(Ordering::Relaxed) { panic!("user node fails on request"); }
+            for o in out { o.iter_mut().for_each(|s| *s = 0.2); }
+        }
+        let ff = flaky as fn(&[Input], &mut [Buffer]);
+        let mut u = G::with_capacity(16, 64);
+        let mut pu = dasp_graph::Processor::<G>::with_capacity(1);
+        let srcs: Vec<_> = (0..6).map(|i| u.add_node(NodeData::new1(BoxedNode::new(if i == 3 { ff } else { f })))).collect();
+        let mid = u.add_node(NodeData::new1(BoxedNode::new(ff)));
+        let mix = u.add_node(NodeData::new2(BoxedNode::new(node::Sum)));
+        for &sn in &srcs { u.add_edge(sn, mix, ()); u.add_edge(sn, mid, ()); }
+        u.add_edge(mid, mix, ());
+        pu.process(&mut u, mix);
+        pu.process(&mut u, mix);
+        FAIL.store(true, Ordering::Relaxed);
+        let unwound = guarded(|| pu.process(&mut u, mix)).is_none();
+        FAIL.store(false, Ordering::Relaxed);
+        bb(unwound);
+        c.measure("graph.process_again_after_a_call_unwound_by_a_failing_user_node", Z, || { for _ in 0..reps.min(100) { pu.process(&mut u, mix); } });
+        let missing = guarded(|| pu.process(&mut u, petgraph::graph::NodeIndex::new(4000))).is_none();
+        bb(missing);
+        c.measure("graph.process_again_after_the_missing_node_panic", Z, || { for _ in 0..reps.min(100) { pu.process(&mut u, mix); } });
+        bb(u[mix].buffers[0][0]);
+    }
     let mut d = G::with_capacity(128, 8192);
     let mut pd = dasp_graph::Processor::<G>::with_capacity(8);
     let nodes: Vec<_> = (0..96).map(|i| d.add_node(NodeData::new1(if i == 0 { BoxedNode::new(f) } else { BoxedNode::new(node::Sum) }))).collect();
